@@ -25,7 +25,7 @@ def run(ctx):
         "payload byte i is F(i) (6-byte windows identify i); the verdict 'runs = [[0,n]]' is exact, the run decomposition of a wrong body is diagnostic only",
         "gzip: only 'inflates (zlib) to what was written, stream ended exactly once' is checked; Leg D treats the gzip layer as a buffering identity",
         "the application never writes after finalize() and never touches the stream while an asynchronous flush is in flight (API contract)",
-        "Leg D: MaxRec=3 stands for 65535, alignment 2 for 8, gather limit 3 for 16, header block = 2 tokens; programs of at most 4 operations",
+        "Leg D: MaxRec=3 stands for 65535, alignment 2 for 8, gather limit 3 for 16, header block = 2 tokens; programs of at most 3 (quick) / 5 (thorough) operations from {Write(0|1|2|5), Put, Flush, SetBuf(0|2|4), FullBuf(on|off), Finalize, AsyncFlush}",
     ]
     # ------------------------------------------------------------------ Leg D
     import outimpl
